@@ -9,6 +9,7 @@ SHARDS = {"quick": 8, "thorough": 16}
 TIMEOUT = {"quick": 900, "thorough": 7200}
 REQUIRED = {"ckd_priv": 500, "ckd_priv_prf": 100, "prf_layout": 100, "derive_path": 50,
             "probe.PrvKeyNode.ckd": 500, "ckd_state": 500}
+ANCHORS = ['bip32:PrvKeyNode.ckd', 'bip32:PubKeyNode.derive_path', 'bip32:PrvKeyNode.extended_private_key', 'bip32:PubKeyNode.extended_public_key', 'helper:hmac_sha512']
 RULE = ("seeded generator over (parent scalar class x chain-code class x depth x index class x "
         "construction form) with boundary corpora; PRF corners via chosen-output stub; distinct = "
         "distinct (monitor, exact case) digests; every case is non-trivial (a full CKDpriv "
